@@ -175,10 +175,10 @@ def run(chk, program, tier):
     c03.segmenter_sweep(chk, program, sorted(set(list(range(0, 31)) + [34, 35, 41, 42, 62, 63, 216, 217, 222, 223])), (0, 5))
     # the receive paths that re-frame the byte stream: serial windows (marker, length, every complete window decoded, exact consumption)
     from .c16 import _Sub
-    r = K.buf_rules(_Sub(chk, {'SER-DELIVER', 'BUF-PROGRESS'}), program)
-    if r:
-        f_, P_, marker_ = r
-        K.ser_const(_Sub(chk, {'SER-CONST'}), program, P_, marker_)
+    from .. import rules_serial as RS
+    r = RS.decide(chk, program, tier, ['SER-DELIVER', 'BUF-PROGRESS'])
+    P_, marker_ = (r[1], r[2]) if r else (20, b'\xaa\x55')
+    K.ser_const(_Sub(chk, {'SER-CONST'}), program, P_, marker_)
 
 def _reader(chk, fmt, n, r, rev):
     a = r.decode_args
